@@ -163,6 +163,12 @@ impl<'a> ResourceRecordManager<'a> {
                             exp_info.expire_at = e;
                             exp_info.refresh_at = r;
                         }
+                        // a refresh point further back than the clock can represent is
+                        // simply "long due": keep it no later than the deadline
+                        (Some(e), None) => {
+                            exp_info.expire_at = e;
+                            exp_info.refresh_at = exp_info.refresh_at.min(e);
+                        }
                         _ => ok = false,
                     }
                 }
